@@ -95,16 +95,18 @@ func (p Placed) Anchored() *operation.AnchoredOperation {
 
 // History is one resolution case.
 type History struct {
-	Level       int
-	Pub         []Placed
-	Unpub       []Placed
-	Additional  []Placed
-	VersionID   int64
+	Level      int
+	Pub        []Placed
+	Unpub      []Placed
+	Additional []Placed
+	VersionID  int64
 	// VersionIDRaw, when set, is the version id string handed to the processor; VersionID must then be an
 	// identifier that no operation carries (the model sees an unknown id)
 	VersionIDRaw string
 	VersionTime  *int64
-	Note        string
+	// VersionTimeOffset (seconds east of UTC) only changes how the same instant is written
+	VersionTimeOffset int
+	Note              string
 }
 
 type sliceStore struct {
@@ -120,6 +122,15 @@ func (s *sliceStore) Get(string) ([]*operation.AnchoredOperation, error) {
 		out[i] = p.Anchored()
 	}
 	return out, nil
+}
+
+// VersionTimeText renders the version time as RFC 3339, in UTC or with the configured zone offset.
+func (h *History) VersionTimeText() string {
+	t := time.Unix(*h.VersionTime, 0).UTC()
+	if h.VersionTimeOffset != 0 {
+		t = t.In(time.FixedZone("", h.VersionTimeOffset))
+	}
+	return t.Format(time.RFC3339)
 }
 
 // Outcome is the projected implementation result.
@@ -203,7 +214,7 @@ func (h *History) Run(pc protocol.Client, tb *Table, oidOf func(*operation.Ancho
 		ropts = append(ropts, document.WithVersionID(CRefString(h.VersionID)))
 	}
 	if h.VersionTime != nil {
-		ropts = append(ropts, document.WithVersionTime(time.Unix(*h.VersionTime, 0).UTC().Format(time.RFC3339)))
+		ropts = append(ropts, document.WithVersionTime(h.VersionTimeText()))
 	}
 	suffix := "unknown"
 	if len(h.Pub) > 0 {
